@@ -1842,8 +1842,8 @@ pub fn registry() -> Vec<Profile> {
             run: run_c13,
             required: &["multi_defect[2]", "multi_defect[3]", "precedence_twin_compared", "error_taxonomy_checked", "rule_reported[r01-path]", "rule_reported[r04-query]", "rule_reported[r05-both-carriers]", "rule_reported[r05-no-carrier]", "rule_reported[r06a-algorithm]", "rule_reported[r06b-key-value]", "rule_reported[r06d-missing]", "rule_reported[r07a-algorithm]", "rule_reported[r07d-missing]", "rule_reported[r08-requirement]", "rule_reported[r09-date-format]", "rule_reported[r10-expired]", "rule_reported[r11-not-yet-valid]", "rule_reported[r12-arity]", "rule_reported[r13-scope]", "rule_reported[r14-provider]", "rule_reported[r15-signature]"],
             rule: "fault combinations: one signed request receives 1-4 defects ('atoms') from different rules and seams — network (bad path/query escape, carrier missing/both, algorithm, key=value, missing parameters, requirement injection/under-signing, date text), clock (expired / not yet valid), scope (arity, region, service, terminator, date), provider (every error kind, unknown key) and signature — on either carrier. Precedence is judged by *twins*: the same request with only the earliest-ranked defect must be reported exactly like the request with the later-ranked defects added (kind, status, message class); the reference model only certifies which defect is earliest and that the defects do not interact. Every error observed is checked against the documented kind → code/status table. Non-trivial when at least one defect applied; distinct by (defect set, reported class).",
-            quick_runs: 50000,
-            thorough_runs: 600000,
+            quick_runs: 100000,
+            thorough_runs: 1200000,
             real: REAL_COMMON,
             stubs: STUBS_COMMON,
             assumptions: ASSUME_COMMON,
@@ -1856,8 +1856,8 @@ pub fn registry() -> Vec<Profile> {
             run: run_c08,
             required: &["direct_api_calls", "world_delivery_survived", "wild_delivery_survived", "body_over_64k", "fold_target_over_64k", "many_parameters", "charset_label_used", "body_invalid_utf8"],
             rule: "swarm: (a) every public function of the crate called directly on random strings (any Unicode scalar, malformed escapes), builders with missing fields, every error conversion, requirement-set histories, prevalidate at chrono's MIN/MAX; (b) the delivery world with every fault kind switched on (panics at any executor step, provider call, body poll or drop are caught and reported); (c) wild wire requests nobody signed: degenerate targets (*, authority-form, /?, /??, /%00, /..), 500-3500 parameters, 60 KiB paths, bodies of 65-265 KiB with folding on, merged targets beyond what a URI can hold, 64 charset labels with arbitrary bytes, invalid UTF-8, 22 malformed Authorization values, 14 date values, requirement sets with empty/upper-case/non-ASCII names; overflow checks and debug assertions are compiled in. Distinct by shape hash.",
-            quick_runs: 23000,
-            thorough_runs: 276000,
+            quick_runs: 46000,
+            thorough_runs: 552000,
             real: REAL_COMMON,
             stubs: STUBS_COMMON,
             assumptions: &["allocation failure is not injected (Rust aborts on it by design; no property asks otherwise)", "unescape_uri_encoding is only called on well-formed input (documented as panicking otherwise)", "sampling, not enumeration"],
@@ -1870,8 +1870,8 @@ pub fn registry() -> Vec<Profile> {
             run: run_c17,
             required: &["error_scanned", "response_scanned", "derived_keys_scanned", "correct_signature_scanned", "debug_log_records_scanned", "log_records_captured", "key_type_debug_scanned", "canonical_and_authenticator_debug_scanned", "cross_validation_scan"],
             rule: "history check over everything a run emitted: all `log` records at debug level or above (the capturing logger is enabled at trace so nothing is filtered before the scanner), every returned error's Display and Debug, Debug of the success response, Debug/Display of every key type, provider request/response (and builders), CanonicalRequest, SigV4Authenticator and AuthParams; needles: each account's secret, 'AWS4'+secret, kDate/kRegion/kService/kSigning of the scope in play (old and rotated secret), the correct signature of a refused request — raw, hex (both cases), base64 (std/url) and decimal-list form; workload: tampered, defective, provider-failing and accepted deliveries. Secrets shorter than 8 bytes are not searched for (coincidental matches).",
-            quick_runs: 48000,
-            thorough_runs: 576000,
+            quick_runs: 96000,
+            thorough_runs: 1152000,
             real: REAL_COMMON,
             stubs: STUBS_COMMON,
             assumptions: ASSUME_COMMON,
@@ -1884,8 +1884,8 @@ pub fn registry() -> Vec<Profile> {
             run: run_c18,
             required: &["corpus_accepted", "corpus_refused", "repeated_same_incarnation", "hash_incarnations", "thread_engine_runs", "fresh_process", "first_use_contended", "async_interleaved_same_thread", "real_parallel_threads"],
             rule: "per run a corpus of 3-8 deliveries (valid and defective at every rule, both carriers, folding) with fixed node, instant and provider answer is evaluated single-threaded (golden), again in the same incarnation, under 2-5 other tape-chosen hash seeds, by 2-8 (thorough: 2-16) real OS threads under the baton scheduler (one runnable thread at a time, seeded hand-off at every log record and provider seam), and in a fraction of runs in a fresh process with real hash keys whose first use of every lazy global happens with four threads released together; outcome signature = Ok + returned request and identity, or (kind, code, status, message class); distinct interleavings = distinct hashes of the baton hand-off trace",
-            quick_runs: 3400,
-            thorough_runs: 40800,
+            quick_runs: 6800,
+            thorough_runs: 81600,
             real: REAL_COMMON,
             stubs: STUBS_COMMON,
             assumptions: &["preemption in the native thread engine happens only at seams (log records, provider calls); code between two seams runs atomically — finer grain is the Miri tier's job", "the error message text is not part of the outcome (DESIGN §4 C18)", "sampling, not enumeration"],
@@ -1898,8 +1898,8 @@ pub fn registry() -> Vec<Profile> {
             run: run_c19,
             required: &["dup_accepted", "dup_refused", "both_carriers_refused", "provider_saw_selected_identity"],
             rule: "duplication faults on authentication inputs: a second Authorization header (before/after), a repeated Credential/Signature/SignedHeaders inside it, repeated X-Amz-* query parameters (6 names), two X-Amz-Date headers, Date beside X-Amz-Date (either is the real one), two token headers, both carriers at once; values differ and exactly one selection makes the reference signature valid; the documented selection table and the reference verdict from the bytes must agree before the library is judged; non-trivial always (a duplication fault fired); distinct by shape hash",
-            quick_runs: 100000,
-            thorough_runs: 1200000,
+            quick_runs: 200000,
+            thorough_runs: 2400000,
             real: REAL_COMMON,
             stubs: STUBS_COMMON,
             assumptions: ASSUME_COMMON,
